@@ -102,6 +102,12 @@ def streams(rng, tier):
             san.append({"op": "san", "name": S("".join(rng.choice(reps) for _ in range(rng.randint(5, 8))))})
     out.append(("sanitize", san))
 
+    # EVERY public attribute of Vector / Table (read with dir(), not from the library's own reserved set) as a column name,
+    # plain and in spellings that sanitise to it: the advertised accessor must not be shadowed by the attribute
+    pub = [p for p in _meta_cached()["public"] if p.isidentifier()]
+    out.append(("public", [{"op": "san", "name": S(sp)} for p in pub for sp in (p, p.upper(), f" {p} ", p + "!")]
+                + [_table_case([S(p), S("a"), S(p.capitalize())], rng) for p in pub]))
+
     dup = []
     for n in range(0, 5):
         for tup in itertools.product(POOL10, repeat=n):
